@@ -432,6 +432,12 @@ pub fn random_settings(rng: &mut Rng, allow_faer: bool) -> DefaultSettings<f64> 
         s.reduced_tol_ktratio = (s.tol_ktratio * 100.0).min(1e3);
     }
     if rng.bool(0.3) {
+        // reduced ("almost") tolerances, independently of each other
+        s.reduced_tol_gap_abs = s.tol_gap_abs * rng.logpos(0.5, 5.0);
+        s.reduced_tol_gap_rel = s.tol_gap_rel * rng.logpos(0.5, 5.0);
+        s.reduced_tol_feas = s.tol_feas * rng.logpos(0.5, 5.0);
+    }
+    if rng.bool(0.3) {
         s.equilibrate_enable = false;
     } else if rng.bool(0.4) {
         s.equilibrate_max_iter = *rng.choose(&[0, 1, 3, 10, 20]);
